@@ -85,13 +85,21 @@ d d6 d51 a6
 // delayedOrders: the creation order with one event held back: for every event whose first
 // descendant comes at least `gap` positions later (or never), every `stride`-th later position up
 // to just before that descendant.
-func delayedOrders(evs []*gEvent, gap, stride, max int) [][]*gEvent {
+func delayedOrders(evs []*gEvent, gap, stride, max int, all ...[]*gEvent) [][]*gEvent {
 	res := [][]*gEvent{}
-	pos := map[*gEvent]int{}
-	for i, e := range evs {
-		pos[e] = i
+	held := evs
+	if len(all) > 0 {
+		// only the events of evs are held back, inside the full list all[0]
+		evs = all[0]
+	}
+	isHeld := map[*gEvent]bool{}
+	for _, e := range held {
+		isHeld[e] = true
 	}
 	for i, x := range evs {
+		if !isHeld[x] {
+			continue
+		}
 		firstChild := len(evs)
 		for j := i + 1; j < len(evs); j++ {
 			if evs[j].sp == x || evs[j].op == x {
@@ -102,7 +110,19 @@ func delayedOrders(evs []*gEvent, gap, stride, max int) [][]*gEvent {
 		if firstChild-i < gap {
 			continue
 		}
-		for p := i + gap; p <= firstChild && len(res) < max; p += stride {
+		start := i + gap
+		if start <= i {
+			start = i + 2
+		}
+		if len(all) > 0 && max > 1 {
+			// a chosen event: the positions end just before its first descendant and are spread
+			// over the whole interval
+			if (firstChild-start)/stride >= max {
+				stride = (firstChild - start) / (max - 1)
+			}
+			start = firstChild - stride*((firstChild-start)/stride)
+		}
+		for p := start; p <= firstChild && len(res) < max; p += stride {
 			// x is delivered just before the event that was at position p (or last)
 			order := []*gEvent{}
 			for j, e := range evs {
@@ -126,10 +146,24 @@ func delayedOrders(evs []*gEvent, gap, stride, max int) [][]*gEvent {
 // buildCorpusScenario: the scripted hashgraph on a reference node (creation order) and on one
 // node per delayed order.
 func buildCorpusScenario(rng *rand.Rand, script []scriptEv, n int, maxOrders int) *scenario {
-	o := genOpts{n0: n, steps: len(script)}
 	d := newDag(rng, n, 0)
-	sc := &scenario{opts: o, d: d}
-	c := &Case{ID: "corpus slow-election"}
+	by := map[string]*gEvent{}
+	for i, s := range script {
+		ntx := 0
+		if s.tx {
+			ntx = 1
+		}
+		by[s.name] = d.newEvent(rng, s.creator, by[s.sp], by[s.op], ntx, nil, nil, int64(1600000000+i), 0)
+	}
+	return scenarioFromDag(rng, d, n, maxOrders, 0, "corpus slow-election")
+}
+
+// scenarioFromDag: a finished static DAG on a reference node (creation order), on one node per
+// delayed order and on `randomOrders` nodes fed in random topological orders.
+func scenarioFromDag(rng *rand.Rand, d *dag, n int, maxOrders, randomOrders int, id string, holdBack ...*gEvent) *scenario {
+	o := genOpts{n0: n, steps: len(d.events)}
+	sc := &scenario{opts: o, d: d, heldBack: len(holdBack)}
+	c := &Case{ID: id}
 	c.Op("CASE")
 	genesis := []int{}
 	for i := 0; i < n; i++ {
@@ -138,18 +172,21 @@ func buildCorpusScenario(rng *rand.Rand, script []scriptEv, n int, maxOrders int
 	ref := newNode(d, 0, 10000, "")
 	c.Op(fmt.Sprintf("HG new 0 %s", intsOrDash(genesis)))
 	sc.nodes = append(sc.nodes, ref)
-	by := map[string]*gEvent{}
-	for i, s := range script {
-		ntx := 0
-		if s.tx {
-			ntx = 1
-		}
-		g := d.newEvent(rng, s.creator, by[s.sp], by[s.op], ntx, nil, nil, int64(1600000000+i), 0)
-		by[s.name] = g
+	for _, g := range d.events {
 		c.Op(g.defLine)
 		ref.run(c, g)
+		d.noteElection(ref)
 	}
-	orders := delayedOrders(d.events, 3, 2, maxOrders)
+	orders := [][]*gEvent{}
+	// events to hold back in particular: delivered at every third later position up to their
+	// first descendant
+	for _, h := range holdBack {
+		orders = append(orders, delayedOrders([]*gEvent{h}, 0, 3, maxOrders/2, d.events)...)
+	}
+	orders = append(orders, delayedOrders(d.events, 3, 2, maxOrders-len(orders))...)
+	for k := 0; k < randomOrders; k++ {
+		orders = append(orders, randomDelayed(rng, topoOrder(rng, d.events)))
+	}
 	for k, order := range orders {
 		nd := newNode(d, k+1, 10000, "")
 		c.Op(fmt.Sprintf("HG new %d %s", k+1, intsOrDash(genesis)))
